@@ -33,6 +33,10 @@ CHECKS = {
          "The real AsyncWebsocketApp::run loop, its handler ThreadPool and real WebsocketStreams run on simulated socket pairs under the controlled scheduler with virtual time. Scenarios: every 1-client script of Connect + <=2 steps over {text, two messages in one write, fragmented binary, ping, broadcast-triggering text} with/without Close; 2 (3) clients with every order-preserving merge of script pairs including external unicast/broadcast from an AsyncSender; heartbeat scenarios with silent, vanishing and closing clients; handler pools of 1 and 2 threads. Every pacing vector (0/1/2 poll intervals before each environment step; all 3^k under the default scheduler) and every execution within d deviations (each pacing entry != 1 and each non-default scheduling choice costs 1; d = 1-2 quick, 2-3 thorough, per family in the evidence) is run to completion and checked: exactly one connect before any message, each message dispatched exactly once in per-client order (dispatch order = dequeue order), exactly one disconnect per closed/timed-out client and nothing after it, unicasts only at their addressee and none lost for a client that stays, broadcasts at most once per client and present/absent where pacing makes membership unambiguous, Pings answered, one Close, all server bytes well-formed frames, run() returns after the shutdown signal.",
          "Trusted: facade mirror + simulated socket semantics (buffered, in-order, EOF after close) + virtual clock (time advances only when no thread is enabled; simultaneous timers become concurrently enabled and are interleaved by the explorer). poll_interval None is not explored (cyclic schedule space). Heartbeat pings are never answered by the simulated clients. Executions more than d deviations away from the default schedule are not covered.",
          "DESIGN.md §3 C12"),
+ "C20": ("E1-sched", "stateless DFS over schedules of the real App::run accept loop + pool + connection handlers on a simulated listener, deviation-bounded",
+         "The real App::run (threaded runtime) with a shutdown receiver runs on a simulated TcpListener under the controlled scheduler: 0, 1 or 2 (thorough 3) client connections, each in one of 7 states (just connected, half a request sent, short request, keep-alive idle, handler that never returns, open WebSocket, two requests on one connection), all unordered pairs, pools of 1 and 2 workers incl. fully occupied pools, bind addresses 127.0.0.1, 0.0.0.0 and [::] (wake-up address mapping). The signal thread and the clients run concurrently with the server, so the explorer places the signal before the first connect, between accepts, between accept and dispatch and while responses are being written; every execution within 3 (4) deviations of the default scheduler for 0-1 connections and 1-2 (3) for pairs is run. Checked on each: run() returns Ok (a blocked caller with nothing enabled = deadlock), the address can be bound again immediately, everything the server wrote on a connection is a whole number of complete responses (nothing truncated), accepted servable connections are answered, unaccepted ones get nothing.",
+         "Trusted: facade mirror and simulated listener/backlog/connect semantics. The tokio runtime is NOT covered by this check (its scheduler and tokio::net cannot be controlled with what is installed; see DESIGN.md §4). Promptness is decided in virtual time: run() returns without any timer firing.",
+         "DESIGN.md §3 C20"),
 }
 NOT_YET = {}
 
